@@ -494,3 +494,44 @@ mb_run_system = FunctionContract(
     canary=[("fudge=self.fudge)", "fudge=1.2)"), ("system.molecules = mols", "pass")],
 )
 CONTRACTS.append(mb_run_system)
+
+
+# ------------------------------------------------------------------ _bonds_from_names: which atoms of the residue carry which name
+AName = TKey('AName')
+
+
+def setup_names(cx):
+    nodes = cx.val('NODES', TSeq(TInt))                      # the atoms of the residue
+    cx.spec_env.update(NODES=nodes, AName=AName)
+    has_name = cx.uf('has_name', [TInt], TBool)
+    name_of = cx.uf('name_of', [TInt], AName)
+
+    def node(e, k):
+        ke = to_z3(k, TInt)
+        return Obj('atomdict',
+                   __contains__=Builtin(lambda e2, a: wrap(TBool, has_name(ke)) if a == 'atomname' else (_ for _ in ()).throw(EngineError('%r in node' % (a,))), 'in node'),
+                   __getitem__=Builtin(lambda e2, a: SV(AName, name_of(ke)) if a == 'atomname' else (_ for _ in ()).throw(EngineError('node[%r]' % (a,))), 'node[]'))
+    return dict(nodes=nodes, graph=Obj('graph', nodes=Obj('NodeView', __getitem__=Builtin(node, 'graph.nodes[]'))))
+
+
+SPEC_NAMES = {
+    'named': "lambda g, nm, n: exists(lambda p: 0 <= p and p < n and NODES[p] == g and has_name(g) and name_of(g) == nm)",
+}
+names_table = FunctionContract(
+    F, '_bonds_from_names', 'C10', short='_bonds_from_names[atoms by name]', setup=setup_names, spec_defs=SPEC_NAMES,
+    region=dict(start="mol_name_to_idx = defaultdict(set)", end="mol_name_to_idx = dict(mol_name_to_idx)"),
+    locals=dict(mol_name_to_idx=TMap(AName, TSet(TInt))),
+    ensures=[
+        # the table lists, under every atom name that occurs in the residue, exactly the atoms of the residue that carry it (atoms
+        # without a name are left out) - the table the duplicate-name check and the name-based bonds are read from
+        "forall(lambda nm, g: (nm in mol_name_to_idx and g in mol_name_to_idx[nm]) == named(g, nm, len(NODES)), AName, TInt)",
+        "forall(lambda nm: implies(nm in mol_name_to_idx, exists(lambda p: 0 <= p and p < len(NODES) and has_name(NODES[p]) and name_of(NODES[p]) == nm)), AName)",
+    ],
+    loops={'L1': LoopSpec(inv=[
+        "forall(lambda nm, g: (nm in mol_name_to_idx and g in mol_name_to_idx[nm]) == named(g, nm, _i), AName, TInt)",
+        "forall(lambda nm: implies(nm in mol_name_to_idx, exists(lambda p: 0 <= p and p < _i and has_name(NODES[p]) and name_of(NODES[p]) == nm)), AName)"],
+        modifies=['mol_name_to_idx'])},
+    canary=[("if 'atomname' in graph.nodes[graph_idx]:", "if 'atomname' not in graph.nodes[graph_idx]:"),
+            ("mol_name_to_idx[graph.nodes[graph_idx]['atomname']].add(graph_idx)", "mol_name_to_idx[graph.nodes[graph_idx]['atomname']] = {graph_idx}")],
+)
+CONTRACTS.append(names_table)
